@@ -105,6 +105,18 @@ def _events(args):
                 z += [B.cds_size, B.chunk_relative_cds_size]
             return z
         row.append(E.outcome(sizes))
+        # field 24: the UTRs of a coding transcript built on the chunk (documented: chunk-relative), lifted back: the bases,
+        # 5'->3', on the chromosome
+
+        def utr(fn):
+            r = fn()
+            if r.is_empty or len(r) == 0:
+                return []
+            r = back(r)
+            b = [p for blk in sorted(r.blocks, key=lambda x: x.start) for p in range(blk.start, blk.end)]
+            return b[::-1] if r.strand == Strand.MINUS else b
+        if has_cds and type(B).__name__ == "TranscriptInterval" and B.cds is not None:
+            row.append([E.outcome(lambda: utr(B.get_5p_interval)), E.outcome(lambda: utr(B.get_3p_interval))])
         return row
 
     pending = [0, False]
@@ -304,6 +316,8 @@ def _key(ev, clause):
         return "cds:single-exon-chunk-offset"
     if clause == "aggregate-identifier:from-chunk-location":
         return "agg:guid-from-chunk-location"
+    if clause == "chunk:utr-accessors-on-cut-transcript":
+        return "chunk:utr-accessors-on-cut-transcript"
     if clause == "chunk:from-chunk-relative-location-refuses-touching-blocks":
         return "chunk:from-chunk-relative-merges-touching-blocks"
     return None
